@@ -52,7 +52,7 @@ ZeroCnt == [rej |-> 0, deser |-> 0, ins |-> 0, reqInit |-> 0, reqFollow |-> 0, s
 InitState(c) ==
   [cfg |-> c, stable |-> <<>>, T |-> [anchor |-> 1, arr |-> <<1>>], ing |-> NoIng, next |-> {},
    sync |-> [fetching |-> FALSE, resp |-> NoResp], fee |-> NoFee, cnt |-> ZeroCnt, now |-> 0,
-   known |-> {1}, flight |-> {}, walks |-> <<>>]
+   known |-> {1}, flight |-> {}, walks |-> {}]
 
 Bound(m) == IF DepthBoundOverride = 0 THEN RealDepthBound(Len(m.T.arr), m.cfg.thr)
             ELSE DepthBoundOverride
